@@ -83,7 +83,7 @@ theorem flat_elem (K : Consts) (ts : TypeSystem) (cass : List Cas) (c : Cas) (ci
     intro h
     obtain ⟨vn, v, _, _, _, hs, hv, _⟩ := hann h
     exact ⟨ci, vn, v, hs, by rw [hc]; exact hv⟩
-  have hgt : getType ts o.ty = .ok t := by unfold getType; rw [ht]
+  have hgt : getTypeExact ts o.ty = .ok t := by unfold getTypeExact; rw [ht]
   refine ⟨o, objOf t tsIdx x (flatAttrs cass H (isInstanceOf ts o.ty ANNOTATION) o (allFeatures t)),
     flatElem ts cass H x o t, ho, ?_, hns, hnv, ?_, ?_⟩
   · exact renderFs_flat K ts cass c ci H a x o t hc ho ht hox hpa hfa hfeat hAnn
